@@ -1,14 +1,18 @@
-// Package vsync: sync shim. PROTOTYPE.
+// Package vsync replaces "sync" in the rewritten murex sources. Outside an exploration every type
+// delegates to the real primitive; inside, each operation is a scheduling point and blocking is decided
+// by the scheduler from the logical state kept here. The real primitive is still operated (always
+// uncontended at that moment) so that uncontrolled goroutines keep mutual exclusion and, in race builds,
+// the program's own happens-before edges are exactly the real ones.
 package vsync
 
 import (
 	"sync"
+	"sync/atomic"
 
-	"github.com/lmorg/murex/zz_verif/vsched"
+	"verif/shim/vsched"
 )
 
 type Locker = sync.Locker
-type Once = sync.Once
 
 type Mutex struct {
 	in    sync.Mutex
@@ -35,6 +39,22 @@ func (m *Mutex) Unlock() {
 	m.owner = nil
 	m.in.Unlock()
 	vsched.PointOp(e, t, vsched.Op{Kind: vsched.OpUnlock, Obj: m})
+}
+
+func (m *Mutex) TryLock() bool {
+	e, t := vsched.Self()
+	if e == nil {
+		return m.in.TryLock()
+	}
+	vsched.PointOp(e, t, vsched.Op{Kind: vsched.OpLock, Obj: m})
+	if m.owner != nil {
+		return false
+	}
+	if !m.in.TryLock() {
+		return false
+	}
+	m.owner = t
+	return true
 }
 
 type RWMutex struct {
@@ -87,18 +107,25 @@ func (m *RWMutex) RUnlock() {
 	vsched.PointOp(e, t, vsched.Op{Kind: vsched.OpRUnlock, Obj: m})
 }
 
+func (m *RWMutex) RLocker() Locker { return (*rlocker)(m) }
+
+type rlocker RWMutex
+
+func (r *rlocker) Lock()   { (*RWMutex)(r).RLock() }
+func (r *rlocker) Unlock() { (*RWMutex)(r).RUnlock() }
+
 type WaitGroup struct {
 	in sync.WaitGroup
-	n  int
+	n  atomic.Int64
 }
 
 func (w *WaitGroup) Add(d int) {
-	w.n += d
+	w.n.Add(int64(d))
 	w.in.Add(d)
 }
 
 func (w *WaitGroup) Done() {
-	w.n--
+	w.n.Add(-1)
 	w.in.Done()
 	if e, t := vsched.Self(); e != nil {
 		vsched.PointOp(e, t, vsched.Op{Kind: vsched.OpWGDone, Obj: w})
@@ -111,6 +138,33 @@ func (w *WaitGroup) Wait() {
 		w.in.Wait()
 		return
 	}
-	vsched.PointOp(e, t, vsched.Op{Kind: vsched.OpWait, Obj: w, Enabled: func() bool { return w.n == 0 }})
+	vsched.PointOp(e, t, vsched.Op{Kind: vsched.OpWait, Obj: w, Enabled: func() bool { return w.n.Load() == 0 }})
 	w.in.Wait()
+}
+
+func (w *WaitGroup) Go(f func()) {
+	w.Add(1)
+	vsched.Go(func() {
+		defer w.Done()
+		f()
+	})
+}
+
+// Once: the real sync.Once would block a controlled thread on its internal mutex while another
+// controlled thread is parked inside Do, so it is rebuilt on the shim Mutex.
+type Once struct {
+	done atomic.Bool
+	m    Mutex
+}
+
+func (o *Once) Do(f func()) {
+	if o.done.Load() {
+		return
+	}
+	o.m.Lock()
+	defer o.m.Unlock()
+	if !o.done.Load() {
+		defer o.done.Store(true)
+		f()
+	}
 }
